@@ -176,6 +176,19 @@ def run(ctx):
             d = ft.switch_term(b)
             if d[0] == "bin" and d[1] in ("Ne", "Eq"):
                 cmpb = (b, d)
+            elif d[0] == "call" and isinstance(d[1], str) and (d[1].endswith("::ne") or d[1].endswith("::eq")) and len(d[2]) == 2:
+                # Option-valued comparison: Some(current[i+j]) vs cell.checked_add(j*stride)
+                x, y = peel(d[2][0]), peel(d[2][1])
+
+                def unopt(z):
+                    if z[0] == "agg" and z[2].endswith("::Some") and len(z[3]) == 1:
+                        return z[3][0]
+                    if z[0] == "call" and isinstance(z[1], str) and z[1].endswith("::checked_add") and len(z[2]) == 2:
+                        return ("bin", "Add", z[2][0], z[2][1])
+                    return None
+                ux, uy = unopt(x), unopt(y)
+                if ux is not None and uy is not None:
+                    cmpb = (b, ("bin", "Ne" if d[1].endswith("::ne") else "Eq", ux, uy))
     if cmpb is None:
         run.bad("C08.K2", "sibling-compare", "no equality test in the sibling loop", w)
         return
